@@ -24,6 +24,9 @@ pub struct Case {
     pub blend: Option<(u16, Vec<u16>)>,
     pub cs: Vec<u8>,
     pub family: &'static str,
+    /// Private DICT entries placed before the Subrs / vsindex operators (stress families only: blue zones, stem
+    /// snaps, LanguageGroup ...); not part of the request line of the `cs` / `cse` / `cffbat` commands
+    pub private_extra: Vec<u8>,
 }
 
 pub fn case_line(cmd: &str, c: &Case) -> String {
@@ -61,6 +64,7 @@ pub fn parse_case(t: &[&str]) -> Option<Case> {
         blend,
         cs: unhex(t[4]),
         family: "",
+        private_extra: vec![],
     })
 }
 
@@ -207,7 +211,7 @@ pub fn cs_case(c: &Case) -> String {
 // ------------------------------------------------------------------------------------------------
 
 /// DICT operand: 5-byte integer (fixed size so that offsets can be laid out in one pass)
-fn dict_int(out: &mut Vec<u8>, v: u32) {
+pub fn dict_int(out: &mut Vec<u8>, v: u32) {
     out.push(29);
     out.extend_from_slice(&v.to_be_bytes());
 }
@@ -254,9 +258,10 @@ fn cff1_table(c: &Case) -> (Vec<u8>, usize) {
     let charstrings = index_bytes(false, 4, &[vec![14], c.cs.clone()]);
     let cs_off = t.len() + top_index_len + strings.len() + c.gsubrs.len();
     let priv_off = cs_off + charstrings.len();
-    let mut private: Vec<u8> = vec![];
+    let mut private: Vec<u8> = c.private_extra.clone();
     if c.lsubrs.is_some() {
-        dict_int(&mut private, 6); // Subrs offset, relative to the Private DICT: directly after it
+        let here = private.len() + 6;
+        dict_int(&mut private, here as u32); // Subrs offset, relative to the Private DICT: directly after it
         private.push(19);
     }
     let mut top: Vec<u8> = vec![];
@@ -301,7 +306,7 @@ fn cff2_table(c: &Case) -> (Vec<u8>, usize) {
         }
     };
     let priv_off = vs_off + vstore.len();
-    let mut private: Vec<u8> = vec![];
+    let mut private: Vec<u8> = c.private_extra.clone();
     if let Some((i, _)) = &c.blend {
         dict_int(&mut private, *i as u32);
         private.push(22); // vsindex
@@ -473,7 +478,7 @@ fn nums(rng: &mut Rng, out: &mut Vec<u8>, n: usize) {
     }
 }
 
-fn bias(count: usize) -> i32 {
+pub fn bias(count: usize) -> i32 {
     if count < 1240 {
         107
     } else if count < 33900 {
@@ -664,7 +669,7 @@ fn pick_off_size(rng: &mut Rng, items: &[Vec<u8>]) -> u8 {
 }
 
 /// `push target; call` through an index of `count` entries
-fn call(out: &mut Vec<u8>, global: bool, target: usize, count: usize) {
+pub fn call(out: &mut Vec<u8>, global: bool, target: usize, count: usize) {
     num(out, target as i32 - bias(count));
     out.push(if global { 29 } else { 10 });
 }
@@ -685,6 +690,7 @@ pub fn gen_case(rng: &mut Rng, i: usize, e2e: bool) -> Case {
         blend,
         cs,
         family,
+        private_extra: vec![],
     };
     match fam {
         // random structured programs with random structured subroutines
@@ -1061,5 +1067,5 @@ pub fn fan_case(k: usize, depth: usize) -> Case {
     let mut cs = vec![];
     call(&mut cs, true, 0, depth);
     cs.push(14);
-    Case { cff2: false, gsubrs: index_bytes(false, 2, &g), lsubrs: None, blend: None, cs, family: "fan" }
+    Case { cff2: false, gsubrs: index_bytes(false, 2, &g), lsubrs: None, blend: None, cs, family: "fan", private_extra: vec![] }
 }
